@@ -243,6 +243,12 @@ def m_access(I_, a, k):
     return mk(r)
 
 
+# permission bits (stat.S_IMODE of st_mode), 0..0o7777; bit 0o1000 is the
+# sticky bit observed by sticky_f
+perm_f = z3.Function('st_perm', State, z3.StringSort(), z3.BoolSort(), z3.IntSort())
+dev_f = z3.Function('st_dev', State, z3.StringSort(), z3.BoolSort(), z3.IntSort())
+
+
 def m_stat(I_, a, k, follow=True):
     fs = fs_of(I_)
     p = z3str(a[0])
@@ -256,6 +262,10 @@ def m_stat(I_, a, k, follow=True):
     size = I_.ctx.fresh_int('st_size')
     I_.ctx.assume(size >= 0)
     st.attrs['st_size'] = Sym(size, 'int')
+    # device of the file system the entry (follow: its target) lives on
+    st.attrs['st_dev'] = Sym(dev_f(fs.sigma, p, z3.BoolVal(bool(follow))), 'int')
+    st.attrs['st_ino'] = Sym(I_.ctx.fresh_int('st_ino'), 'int')
+    st.attrs['st_mtime'] = Sym(I_.ctx.fresh_int('st_mtime'), 'int')
     return st
 
 
